@@ -24,6 +24,22 @@ pub fn check(tier: Tier) -> Check {
             tier.pick(15, 300),
         ));
     }
+    // magnitudes: intervals and elapsed times of weeks and decades (seconds vs milliseconds vs u32)
+    for (expiry, ago) in [
+        (10_368_000u64, 5_184_000u64), // 120 days, resumed after 60
+        (10_368_000, 10_500_000),      // ... after 121.5: expired
+        (4_294_968, 4_294_000),        // just above 2^32 milliseconds
+        (4_294_967_294, 4_000_000_000),
+        (4_294_967_294, 5_000_000_000), // elapsed beyond u32: expired
+        (86_400, 3_000),
+    ] {
+        parts.push(Part::new(
+            "C17/resume",
+            json!({"depth": tier.pick(3, 5), "expiry": expiry, "secs_ago": ago}),
+            0,
+            tier.pick(15, 300),
+        ));
+    }
     // the broker's Session Expiry Interval (CONNACK) overrides the requested one
     for (expiry, cexp, ago) in [(3600u64, 30u64, 60u64), (0, 1000, 10), (30, 3600, 60), (1000, 0, 10)] {
         parts.push(Part::new(
@@ -46,7 +62,7 @@ pub fn check(tier: Tier) -> Check {
         also_rel: false,
         property: "C17",
         level: "model_checking",
-        rule: "all histories of QoS 1/2 publishes, pings, subscribes, unsubscribes and their acknowledgements (success / failing) up to the stated depth; the connection is lost (EOF) after every prefix; the hook records the disconnection secs_ago seconds ago; set_up + connect (same options) + run on a fresh transport; the second wire must show CONNECT followed by exactly the unfinished PUBLISH (DUP=1, same id and content) / PUBREL packets in original order when the session has not expired, nothing when it has; then the acknowledgements arrive on the new connection and a fresh publish follows; session expiry in {0, 1000 s, never} x secs_ago in {10, 100000}, and four combinations in which the CONNACK states a different Session Expiry Interval than the CONNECT (the broker's is the one in force); non-trivial = something had to be re-sent or an expired session had abandoned operations".into(),
+        rule: "all histories of QoS 1/2 publishes, pings, subscribes, unsubscribes and their acknowledgements (success / failing) up to the stated depth; the connection is lost (EOF) after every prefix; the hook records the disconnection secs_ago seconds ago; set_up + connect (same options) + run on a fresh transport; the second wire must show CONNECT followed by exactly the unfinished PUBLISH (DUP=1, same id and content) / PUBREL packets in original order when the session has not expired, nothing when it has; then the acknowledgements arrive on the new connection and a fresh publish follows; session expiry in {0, 1000 s, never} x secs_ago in {10, 100000}, six (interval, elapsed) pairs of larger magnitude (a day, 120 days, just above 2^32 ms, 2^32 - 2 s; elapsed up to 5 * 10^9 s), and four combinations in which the CONNACK states a different Session Expiry Interval than the CONNECT (the broker's is the one in force); non-trivial = something had to be re-sent or an expired session had abandoned operations".into(),
         assumptions: vec![
             "same ConnectOpts on both connections; secs_ago is >= 100 s away from the expiry boundary (the wall clock is not behind a seam)".into(),
             "the disconnection is recorded by the cfg(poster_verif) hook, production code never records it".into(),
